@@ -19,7 +19,7 @@ LIT = ["lb", "rb", "dq", "sq", "ent", "x", "sp", "nl"]
 
 def run(ctx):
     quick = ctx.tier == "quick"
-    shapes = list(IC.SHAPES)
+    shapes = [s for s in IC.SHAPES if s != "strent"]      # (strent: text mode only, C20)
     # (i) scanning semantics
     cfg = dict(lit=LIT, shapes=shapes[:7] if quick else shapes, contexts=["text", "dqattr"] if quick else ["text", "dqattr", "sqattr", "cdata"],
                maxparts=3 if quick else 4, maxdol=3 if quick else 4, maxstack=0)
